@@ -20,6 +20,9 @@ InnerSumFunction(HLQuadraticCost), RangesFunction, DemandFunction.  This module 
   {'k': 'reflect', 'f': ...}             ReflectedFunction of a description here
   {'k': 'ranges', 'at': k, 'f': ..., 'g': ...}   RangesFunction([((0,k), f), ((k,n), g)])
   {'k': 'base', 'f': <gen.gen_fn description>, 'cvx': bool}   anything vk.gen.gen_fn builds
+  shared OBJECTS (build_fn / build_fnx otherwise make a fresh object per slot): {'k': 'x2d', 'fs': [scalar], 'shared': n} = X2D([f]*n);
+  {'k': 'sum', 'fs': [g], 'shared': m} = SumFunction([g]*m);  {'k': 'rangesN', 'cuts': [...], 'fs': [...]} = RangesFunction of 4-6 ranges,
+  with 'shared': m the first m (equal-length) ranges are served by ONE function object (+ optional 'tail')
 
 Public: gen_fnx, build_fnx, build_adevice, fnx_case_dev, numeric, exponents, convex, kink_free, kinds."""
 from fractions import Fraction
@@ -37,8 +40,8 @@ def _np():
 
 
 # ------------------------------------------------------------------ generation
-def gen_poly_cs(rng, maxdeg=3):
-  deg = rng.randint(0, maxdeg)
+def gen_poly_cs(rng, maxdeg=5):
+  deg = rng.choice([d for d in (0, 1, 2, 3, 3, 4, 5) if d <= maxdeg])
   return L([dy(rng, 0 if j == 0 else -2, 2) for j in range(deg + 1)])
 
 
@@ -65,7 +68,25 @@ def gen_fnx(rng, n, lb, hb, depth=0, allow_numeric=True):
     kinds += ['entropy', 'tvar', 'cobb'] * 2
   if depth < 2:
     kinds += ['sumN', 'reflect', 'base'] + (['ranges'] if n >= 2 else [])
+  if depth == 0:      # one function OBJECT shared by every slot / summand / range; wide sums and range lists
+    kinds += ['x2d_shared', 'sum_shared', 'sumW'] + (['rangesN', 'rangesN_shared'] if n >= 4 else [])
   k = rng.choice(kinds)
+  if k == 'x2d_shared':      # X2D([f]*n): the same scalar function object in every slot
+    return {'k': 'x2d', 'fs': [gen_scalar(rng, min(lb), max(hb) if max(hb) > min(lb) else min(lb) + 1, rng.choice(['hlq1', 'abc1', 'poly1', 'poly1']))], 'shared': n}
+  if k == 'sum_shared':      # SumFunction([g]*m)
+    return {'k': 'sum', 'fs': [gen_fnx(rng, n, lb, hb, 2, allow_numeric)], 'shared': rng.randint(2, 6)}
+  if k == 'sumW':            # 5-6 different summands
+    return {'k': 'sum', 'fs': [gen_fnx(rng, n, lb, hb, 2, allow_numeric) for _ in range(rng.randint(5, 6))]}
+  if k in ('rangesN', 'rangesN_shared'):
+    if k == 'rangesN_shared':      # equal-length ranges served by ONE function object
+      w = rng.choice([w_ for w_ in (1, 2, 3) if n // w_ >= 4] or [1])
+      m = min(n // w, rng.randint(4, 6))
+      cuts = [w*i for i in range(1, m)] + ([] if w*m == n else [w*m])
+      g = gen_fnx(rng, w, [min(lb)]*w, [max(hb)]*w, 2, False)
+      return {'k': 'rangesN', 'cuts': cuts, 'fs': [g], 'shared': m, 'tail': None if w*m == n else gen_fnx(rng, n - w*m, lb[w*m:], hb[w*m:], 2, False)}
+    cuts = sorted(rng.sample(range(1, n), min(n - 1, rng.randint(3, 5))))
+    pts = [0] + cuts + [n]
+    return {'k': 'rangesN', 'cuts': cuts, 'fs': [gen_fnx(rng, b - a, lb[a:b], hb[a:b], 2, allow_numeric) for a, b in zip(pts[:-1], pts[1:])]}
   if k == 'x2d':
     mode = rng.choice(['hlq1', 'hlq1', 'abc1', 'poly1', 'hlq+abc', 'hlq+abc', 'any'])
     pick = {'hlq+abc': ['hlq1', 'abc1'], 'any': ['hlq1', 'abc1', 'poly1']}.get(mode, [mode])
@@ -135,6 +156,9 @@ def build_fnx(f, n):
   k = f['k']
   vec = lambda v: np.array([_num(x) for x in v]) if isinstance(v, list) else _num(v)
   if k == 'x2d':
+    if f.get('shared'):
+      g = build_scalar(f['fs'][0])
+      return Fm.X2D([g]*int(f['shared']))      # the SAME object in every slot
     return Fm.X2D([build_scalar(g) for g in f['fs']])
   if k == 'poly1d':
     return Fm.Poly1D(np.poly1d([_num(x) for x in f['cs']]))
@@ -149,7 +173,19 @@ def build_fnx(f, n):
   if k == 'cobb':
     return Fm.CobbDouglas(vec(f['a']), _num(f['c']))
   if k == 'sum':
+    if f.get('shared'):
+      g = build_fnx(f['fs'][0], n)
+      return Fm.SumFunction([g]*int(f['shared']))
     return Fm.SumFunction([build_fnx(g, n) for g in f['fs']])
+  if k == 'rangesN':
+    pts = [0] + list(f['cuts']) + [n]
+    spans = list(zip(pts[:-1], pts[1:]))
+    if f.get('shared'):
+      m = int(f['shared']); g = build_fnx(f['fs'][0], spans[0][1] - spans[0][0])
+      fns = [g]*m + ([build_fnx(f['tail'], spans[-1][1] - spans[-1][0])] if f.get('tail') else [])
+    else:
+      fns = [build_fnx(g, b - a) for g, (a, b) in zip(f['fs'], spans)]
+    return Fm.RangesFunction([(sp, fn) for sp, fn in zip(spans, fns)])
   if k == 'reflect':
     return Fm.ReflectedFunction(build_fnx(f['f'], n))
   if k == 'ranges':
@@ -184,6 +220,8 @@ def _children(f):
     return [f['f']]
   if k == 'ranges':
     return [f['f'], f['g']]
+  if k == 'rangesN':
+    return list(f['fs']) + ([f['tail']] if f.get('tail') else [])
   return []
 
 
@@ -223,11 +261,48 @@ def exponents(f):
 
 
 def _poly_convex(cs, lo, hi):
-  cs = [F(c) for c in cs]
-  if len(cs) < 3:
-    return True
-  c3 = cs[-4] if len(cs) >= 4 else F(0)
-  return all(6*c3*t + 2*cs[-3] >= 0 for t in (lo, hi))
+  """PROVABLY convex on [lo, hi]: exact up to degree 4, the sufficient bound of c07.curvature_need beyond (a False answer only means
+  positive semidefiniteness is not demanded)."""
+  from .props.c07 import curvature_need
+  need = curvature_need(cs, lo, hi)
+  return True if need is None else F(cs[-3]) >= need
+
+
+def wide_cbounds(rng, d):
+  """CDevice2 with 4-5 contiguous cumulative ranges covering the horizon (vk.gen.gen_cbounds draws at most 3): in place."""
+  n = d['n']
+  if d['cls'] != 'CDevice2' or n < 4:
+    return False
+  lb = [F(x) for x in d['lb']]; hb = [F(x) for x in d['hb']]
+  cuts = sorted(rng.sample(range(1, n), min(n - 1, rng.randint(3, 4))))
+  pts = [0] + cuts + [n]
+  cbs = []
+  for a, b in zip(pts[:-1], pts[1:]):
+    lo, hi = sum(lb[a:b], F(0)), sum(hb[a:b], F(0))
+    w = hi - lo
+    l = lo + w*Fraction(rng.randint(-2, 3), 8)
+    h = max(l, lo) + (w if w > 0 else 1)*Fraction(rng.randint(1, 6), 8)
+    if h <= l:
+      h = l + 1
+    cbs.append([fs(l), fs(h), a, b])
+  d['cbs'] = cbs
+  d['_py']['cform'] = '4tuples'
+  return True
+
+
+def rich_coeffs(rng, n, lb, hb, convex=False):
+  """GDevice cost_coeffs beyond what vk.gen.gen_leaf draws (degree <= 3, non-negative): degree 4-5, signed lower-order coefficients,
+  one curve or one per slot.  `convex`: repaired to be convex in the generated quantity q = -s over [-hb, -lb]."""
+  from .props.c07 import convexify
+  def one(lo, hi):
+    deg = rng.choice([2, 3, 4, 4, 5])
+    c = [dy(rng, 0, 1)] + [dy(rng, -2, 2) for _ in range(deg)]
+    return L(convexify(c, lo, hi, tight=rng.random() < 0.5) if convex else c)      # tight: convex only thanks to the leading terms
+  if rng.random() < 0.5:
+    return one(-max(hb), -min(lb))
+  deg = rng.choice([3, 4, 5])
+  rows = [[dy(rng, 0, 1)] + [dy(rng, -2, 2) for _ in range(deg)] for _ in range(n)]
+  return [L(convexify(r, -hb[i], -lb[i], tight=rng.random() < 0.5) if convex else r) for i, r in enumerate(rows)]
 
 
 def _scalar_convex(f, lo, hi):
@@ -245,7 +320,16 @@ def convex(f, lb, hb):
   """the description lies in the documented-convex family over the box (then the Hessian must be PSD)."""
   k = f['k']
   if k == 'x2d':
+    if f.get('shared'):
+      return _scalar_convex(f['fs'][0], min(lb), max(hb))
     return all(_scalar_convex(g, lb[i], hb[i]) for i, g in enumerate(f['fs']))
+  if k == 'rangesN':
+    pts = [0] + list(f['cuts']) + [len(lb)]
+    spans = list(zip(pts[:-1], pts[1:]))
+    if f.get('shared'):
+      m = int(f['shared'])
+      return all(convex(f['fs'][0], lb[a:b], hb[a:b]) for a, b in spans[:m]) and (not f.get('tail') or convex(f['tail'], lb[spans[-1][0]:], hb[spans[-1][0]:]))
+    return all(convex(g, lb[a:b], hb[a:b]) for g, (a, b) in zip(f['fs'], spans))
   if k == 'poly1d':
     return _poly_convex(f['cs'], min(lb), max(hb))
   if k == 'inner':
@@ -279,6 +363,13 @@ def kink_free(f, s, margin=Fraction(1, 4)):
   if k == 'ranges':
     at = f['at']
     return kink_free(f['f'], s[:at], margin) and kink_free(f['g'], s[at:], margin)
+  if k == 'rangesN':
+    pts = [0] + list(f['cuts']) + [len(s)]
+    spans = list(zip(pts[:-1], pts[1:]))
+    if f.get('shared'):
+      m = int(f['shared'])
+      return all(kink_free(f['fs'][0], s[a:b], margin) for a, b in spans[:m]) and (not f.get('tail') or kink_free(f['tail'], s[spans[-1][0]:], margin))
+    return all(kink_free(g, s[a:b], margin) for g, (a, b) in zip(f['fs'], spans))
   if k == 'base':
     if 'base:demand' in kinds(f):
       srt = sorted(s)
